@@ -16,7 +16,7 @@ namespace Geomdl
 /-! ### loops over a grid -/
 
 /-- `for i in range(n): for j in range(m): out.append(f i j)` -/
-def grid2 {α : Type} (n m : Nat) (f : Nat → Nat → α) : List α :=
+def meshGrid2 {α : Type} (n m : Nat) (f : Nat → Nat → α) : List α :=
   (List.range n).flatMap fun i => (List.range m).map (f i)
 
 /-- `len(range(0, size, spacing))`: number of grid vertices per direction (repaired code) -/
@@ -49,7 +49,7 @@ def polygonTriangulate : List Nat → List (List Nat)
 /-- the triangle loop of `make_triangle_mesh` with `surface_tessellate` (no new vertices):
     `for i in range(nu-1): for j in range(nv-1): triangles += polygon_triangulate(v1,v2,v3,v4)` -/
 def meshTriangles (nu nv : Nat) : List (List Nat) :=
-  (grid2 (nu - 1) (nv - 1) fun i j => polygonTriangulate (quadCell nv i j)).flatten
+  (meshGrid2 (nu - 1) (nv - 1) fun i j => polygonTriangulate (quadCell nv i j)).flatten
 
 /-! ### `fix_numbering` -/
 
@@ -73,9 +73,9 @@ def fixNumbering (nVerts : Nat) (tris : List (List Nat)) : List Nat × List (Lis
 
 /-- explicit edge list of the grid triangulation: u-direction, v-direction, cell diagonals -/
 def meshEdges (nu nv : Nat) : List (Nat × Nat) :=
-  grid2 (nu - 1) nv (fun i j => (gridVid nv i j, gridVid nv (i + 1) j))
-  ++ grid2 nu (nv - 1) (fun i j => (gridVid nv i j, gridVid nv i (j + 1)))
-  ++ grid2 (nu - 1) (nv - 1) (fun i j => (gridVid nv i j, gridVid nv (i + 1) (j + 1)))
+  meshGrid2 (nu - 1) nv (fun i j => (gridVid nv i j, gridVid nv (i + 1) j))
+  ++ meshGrid2 nu (nv - 1) (fun i j => (gridVid nv i j, gridVid nv i (j + 1)))
+  ++ meshGrid2 (nu - 1) (nv - 1) (fun i j => (gridVid nv i j, gridVid nv (i + 1) (j + 1)))
 
 /-- directed edges of a triangle `(a,b,c)`: `a→b, b→c, c→a` -/
 def triDirEdges : List Nat → List (Nat × Nat)
@@ -97,7 +97,7 @@ def facesEdges (faces : List (List Nat)) : List (Nat × Nat) :=
 /-! ### `make_quad_mesh` -/
 
 /-- `make_quad_mesh(points, size_u, size_v)`: vertex ids are the point indices; the quads -/
-def makeQuadFaces (su sv : Nat) : List (List Nat) := grid2 (su - 1) (sv - 1) fun i j => quadCell sv i j
+def makeQuadFaces (su sv : Nat) : List (List Nat) := meshGrid2 (su - 1) (sv - 1) fun i j => quadCell sv i j
 
 /-! ### container / exporter index offsets -/
 
@@ -127,7 +127,7 @@ def accParam (jump : K) : Nat → K
 /-- the vertex loop: vertex `k` of the result (id `k`) is `((u, v), idx)` where `idx = j + i*size_v`
     (`i`, `j` multiples of the spacing) is the index of the evaluated point it copies -/
 def meshVertices (su sv s : Nat) : List ((K × K) × Nat) :=
-  grid2 (gridCount su s) (gridCount sv s) fun i j =>
+  meshGrid2 (gridCount su s) (gridCount sv s) fun i j =>
     ((accParam (meshJump su s) i, accParam (meshJump sv s) j), j * s + (i * s) * sv)
 
 /-- result of `make_triangle_mesh` (untrimmed): vertex `k` has id `k` -/
